@@ -39,7 +39,7 @@ IO_PAIR_NAMES = ["csv", "csvlite", "tsv", "tsvlite", "asv", "asvlite", "usv", "u
 # file-format names offered for -i/-o/--io (shell-completion.md) + recutils (file-formats.md uses -i recutils)
 DOC_FORMAT_NAMES = ["csv", "csvlite", "dcf", "dkvp", "dkvpx", "gen", "json", "markdown", "nidx", "pprint", "recutils", "tsv",
                     "xtab", "yaml"]
-EXTRA_FORMAT_NAMES = ["md", "jsonl"]   # evaluated and reported, not part of the documented list
+EXTRA_FORMAT_NAMES = ["md", "jsonl"]   # names of the long flags --imd/--omd/--md, --ijsonl/--ojsonl/--jsonl (accepted since the repair)
 # reference-main-separators.md "Aliases"
 DOC_ALIASES = {
     "ascii_esc": "\\x1b", "ascii_etx": "\\x03", "ascii_fs": "\\x1c", "ascii_gs": "\\x1d", "ascii_null": "\\x00",
@@ -439,7 +439,7 @@ def flag_oracle(ctx, gen=None):
         if "--" + x in allsp and "--i" + x in allsp and "--o" + x in allsp:
             compare("iopair", "--" + x, ["--" + x], ["--i" + x, "--o" + x], input_data(["--i" + x, "--o" + x]))
     # 3. -i X / -o X / --io X vs --iX / --oX / --X
-    names = list(dict.fromkeys(DOC_FORMAT_NAMES + sorted(gen["seps"]["default_fs"])))
+    names = list(dict.fromkeys(DOC_FORMAT_NAMES + sorted(gen["seps"]["default_fs"]) + EXTRA_FORMAT_NAMES))
     for x in names:
         if "--i" + x in allsp:
             compare("ioform", "-i " + x, ["-i", x], ["--i" + x], input_data(["--i" + x]), post=["--ojson"])
@@ -454,6 +454,7 @@ def flag_oracle(ctx, gen=None):
                 if expansion_of(a) is None:
                     compare("altname", a, [a], [f["name"]], input_data([f["name"]]))
     # 5. named separators vs the DOCUMENTED literal
+    absolute = []       # (label, argv, stdin, expected stdout)
     for n, lit in sorted(DOC_ALIASES.items()):
         sep = unescape(lit)
         for fl in SEP_FLAGS:
@@ -468,6 +469,12 @@ def flag_oracle(ctx, gen=None):
             else:
                 pre, d = ["--ijson", "--ocsv"], b'{"a":{"b":1,"c":{"d":2}}}\n'
             compare("sepalias", f"{fl} {n}", [fl, n], [fl, lit], d, pre=pre)
+            # absolute form: the alias must denote exactly the documented BYTES (reference-main-separators.md), i.e. data
+            # written with those bytes is split into the expected records.  The expectation is computed here, not by mlr.
+            if fl in ("--ifs", "--ips") and not (set(sep) & set(b"=,\nab1234")):
+                want = b'{"a": 1, "b": 2}\n' + (b'{"a": 3, "b": 4}\n' if fl == "--ifs" else b"")
+                absolute.append((f"{fl} {n}", ["--idkvp", "--ojsonl", fl, n, "cat"], d, want))
+                absolute.append((f"{fl} {lit}", ["--idkvp", "--ojsonl", fl, lit, "cat"], d, want))
     for n, lit in sorted(DOC_REGEX_ALIASES.items()):
         compare("sepalias", f"--ifs-regex {n}", ["--ifs-regex", n], ["--ifs-regex", lit], b"a  b \t c\t\td\n", pre=["--inidx", "--ojson"])
         compare("sepalias", f"--ips-regex {n}", ["--ips-regex", n], ["--ips-regex", lit], b"a  1,b\t\t2,c \t 3\n", pre=["--idkvp", "--ojson"])
@@ -475,6 +482,8 @@ def flag_oracle(ctx, gen=None):
     tmpdir = tempfile.mkdtemp(prefix="c02flags-", dir="/tmp")
     try:
         nrc = [0]
+        rc_pairs = []
+        ctx._c02_rc_pairs = rc_pairs
 
         def rc_case(label, text, argv, stdin, post=()):
             p = Path(tmpdir) / f"rc{nrc[0]}"
@@ -484,6 +493,7 @@ def flag_oracle(ctx, gen=None):
             kl = R.want(list(post) + verb, stdin, {"MLRRC": str(p)})
             kr = R.want(list(argv) + list(post) + verb, stdin, None)
             cases.append(("mlrrc", label, [".mlrrc: " + text], list(argv), "main", kl, kr, stdin, None))
+            rc_pairs.append((text, list(argv)))
 
         cand = [s for f in table if f["section"] in ("File-format flags", KS_SECTION) and f["arg"] == ""
                 for s in spellings(f) if final_of([s]) is not None]
@@ -500,6 +510,9 @@ def flag_oracle(ctx, gen=None):
         rc_case("c2p then barred", "c2p\nbarred\n", ["--c2p", "--barred"], sample)
         rc_case("later line overrides", "icsv\nojson\noxtab\n", ["--icsv", "--ojson", "--oxtab"], sample)
         rc_case("command line overrides .mlrrc", "c2p\n", ["--c2p"], sample, post=["--ojson"])
+        rc_case("last line without newline", "icsv\nojson", ["--icsv", "--ojson"], sample)       # regression probe (fixed: mlrrc-last-line)
+        rc_case("only line without newline", "c2p", ["--c2p"], sample)
+        rc_case("blanks, tabs and comment around a flag with argument", " \t ofs   semicolon \t# c\n", ["--ofs", "semicolon"], DATA["dkvp"])
         for fl in SEP_FLAGS:
             for v in (("semicolon",) if fl not in ("--ifs", "--ofs") else ("semicolon", "\\t")):
                 if fl in ("--flatsep", "--jflatsep"):
@@ -508,6 +521,16 @@ def flag_oracle(ctx, gen=None):
                     sepb = unescape(DOC_ALIASES.get(v, v))
                     d, post = b"a=1" + sepb + b"b=2\na=3" + sepb + b"b=4\n", []
                 rc_case(f"{fl[2:]} {v}", f"{fl[2:]} {v}\n", [fl, v], d, post=post)
+        # 5b. format flags that imply multi-byte / control separators (usv, asv and their lite forms): real data in, real data out
+        for x, fsb, rsb in (("usv", "\u241f".encode(), "\u241e".encode()), ("asv", b"\x1f", b"\x1e")):
+            for suffix in ("", "lite"):
+                if "--i" + x + suffix not in allsp:
+                    continue
+                d = b"a" + fsb + b"b" + rsb + b"1" + fsb + b"2" + rsb + b"3" + fsb + b"4" + rsb
+                absolute.append((f"--i{x}{suffix}", ["--i" + x + suffix, "--ojsonl", "cat"], d, b'{"a": 1, "b": 2}\n{"a": 3, "b": 4}\n'))
+                absolute.append((f"--o{x}{suffix}", ["--ijsonl", "--o" + x + suffix, "cat"], b'{"a": 1, "b": 2}\n{"a": 3, "b": 4}\n', d))
+                absolute.append((f"--{x}{suffix}", ["--" + x + suffix, "cat"], d, d))
+        abs_keys = [(label, argv, stdin, want, R.want(argv, stdin, None)) for label, argv, stdin, want in absolute]
         schedule()
         R.run_all()
     finally:
@@ -536,6 +559,18 @@ def flag_oracle(ctx, gen=None):
                 "how": ("MLRRC=<file holding %r> mlr %s   versus   MLRRC=__none__ mlr %s" % (lhs[0][8:], " ".join(kl[0]), " ".join(kr[0]))) if rc_env
                        else ("mlr %s   versus   mlr %s   (stdin = input; eprint line = DSL separator variables)" % (" ".join(kl[0]), " ".join(kr[0]))),
             })
+    for label, argv, stdin, want, key in abs_keys:
+        got = R.get(key)
+        ctx.count(("sepbytes", label, tuple(argv)), nontrivial=(got[0] == 0))
+        ctx.dist("flags_oracle_sepbytes")
+        if got[0] in ("hang", "harness-error"):
+            continue
+        if got[0] != 0 or got[1] != want:
+            bad.append({"class": "flag-spelling:separator-bytes:" + label.replace(" ", "_"), "kind": "sepbytes", "flag": label, "spelling": argv,
+                        "input": show(stdin), "input_hex": stdin.hex(),
+                        "observed": {"status": got[0], "stdout": show(got[1]), "stderr_tail": show(got[3])},
+                        "expected": {"status": 0, "stdout": show(want)},
+                        "how": "mlr %s  (stdin = input): the named separator / format flag must denote the documented bytes" % " ".join(argv)})
     ctx.cov.setdefault("flags_oracle", {})
     ctx.cov["flags_oracle"] = {"comparisons": len(cases), "mlr_runs": len(R.memo), "mismatches": len(bad)}
     return bad
